@@ -130,7 +130,7 @@ def run(ctx):
 
     if ctx.replay:
         rep = json.load(open(ctx.replay))
-        variants = [] if rep.get("harness") == "gpt_sched" else [(rep.get("variant", "a0"), [rep["case"]])]    # gpt_sched: part D only
+        variants = [] if rep.get("harness") in ("gpt_sched", "shb_sched") else [(rep.get("variant", "a0"), [rep["case"]])]    # gpt_sched: part D only
     else:
         corpus = C04.load_corpus("C05")
         n = 3000 if thorough else 1000
@@ -247,6 +247,13 @@ def run(ctx):
     import C04_gpt
     hung = any("hung or crashed" in w for w, _ in ctx.violations)
     gpt_cov = C04_gpt.run_gpt_sched(ctx) if not hung else {"skipped": "a harness hung or crashed before"}
+    import C04_shb
+    try:
+        shb_cov = C04_shb.run_shb_sched(ctx) if not hung else {"skipped": "a harness hung or crashed before"}
+    except vcheck.BuildError as e:
+        shb_cov = {"build_failure": str(e)[-1500:]}
+        ctx.violation("harness/C04/shb_sched.cpp does not build against the working tree: the signal_buffered part cannot be checked",
+                      {"kind": "build-failure", "harness": "shb_sched", "error": str(e)[-2000:]}, no_input=True)
 
     if ctx.thorough() and res.ok and not ctx.replay:
         rcq, outq = vcheck.coqchk("LV.Properties.Properties_C05")
@@ -256,7 +263,7 @@ def run(ctx):
     if not res.ok:
         ctx.violation("Coq obligations of C05 do not check: %s" % (res.failed[:2],), {"theorem": [f[2] for f in res.failed], "errors": res.failed[:3]}, no_input=True)
     ctx.coverage.update({
-        "evaluations": ncases + obs["cases"] + sum(v["runs"] for v in expl_cov.values()) + gpt_cov.get("finished", 0),
+        "evaluations": ncases + obs["cases"] + sum(v["runs"] for v in expl_cov.values()) + gpt_cov.get("finished", 0) + shb_cov.get("finished", 0),
         "distinct_nontrivial": len(tot["nontrivial"]),
         "rule": "D: the real general_threaded under the scheduler, monitors only (see general_threaded_scheduled). A: program x schedule pairs on general_buffered with the atomic buffer (capacities 1-4, counting / non-counting), step by step against the model; distinct = distinct model event logs, non-trivial = a flip_and_wait wait loop went round at least once. B: same generator on the default buffer type, monitors only. C: real-thread runs (cases x repetitions), monitors only.",
         "step_correspondence_cases": ncases, "distinct_event_logs": len(tot["shapes"]), "impl_steps_compared": tot["steps"], "diverged": tot["diverged"], "overruns": tot["overruns"],
@@ -265,14 +272,15 @@ def run(ctx):
         "observable_default_buffer": obs,
         "exploration_real_threads": {"note": "exploration of the real code (OS scheduling, random yields), not a proof and not a step correspondence", "per_flavour": expl_cov},
         "general_threaded_scheduled": gpt_cov,
+        "signal_buffered_scheduled": shb_cov,
         "samples": samples[:2],
         "modelled": "general_buffered::retire_ptr/batch_retire/push_buffer/synchronize/clear_buffer/Destruct over an abstract bounded FIFO; gp core as in C04",
     })
     return ctx.finish(vcheck.STD_TRUSTED + ["hook layer: khizmax_libcds_verif::atomic<T>, baton scheduler, event log (hooks/include)", "ocaml/conc_main.ml event printer",
-                                            "harness/C04/rcu_harness.h, harness/C05/main.cpp (AtomicBuf wrapper: one scheduling point per buffer operation), harness/C05/explore.cpp"] + C04_gpt.TRUSTED,
+                                            "harness/C04/rcu_harness.h, harness/C05/main.cpp (AtomicBuf wrapper: one scheduling point per buffer operation), harness/C05/explore.cpp"] + C04_gpt.TRUSTED + C04_shb.TRUSTED,
                       ["sequential consistency: memory_order arguments and fences are not modelled",
                        "the buffer is an abstract bounded FIFO with atomic push/pop/size (its linearizability is property C07); the step correspondence runs the real Vyukov queue atomically inside each buffer operation",
-                       "general_threaded, signal_buffered: Coq models (LV.Model.RcuThreaded, LV.Model.RcuSignal) with atomic hand-offs / atomic signal delivery as stated modelling assumptions; NO step correspondence for them; general_threaded's tie to the code is the real code under the deterministic scheduler with the monitors (part D, reclamation thread unscheduled) plus the real-thread exploration; signal_buffered's is reading plus the real-thread exploration (signal handlers cannot run under the baton scheduler)",
+                       "general_threaded, signal_buffered: Coq models (LV.Model.RcuThreaded, LV.Model.RcuSignal) with atomic hand-offs / atomic signal delivery as stated modelling assumptions; no step correspondence for general_threaded; general_threaded's tie to the code is the real code under the deterministic scheduler with the monitors (part D, reclamation thread unscheduled) plus the real-thread exploration; signal_buffered runs with real signals under the deterministic scheduler (checks/C04_shb.py: monitors + step correspondence with LV.Model.RcuSignal for the atomic-buffer variants) plus the real-thread exploration",
                        "Destruct disposes without a grace period: the grace-period theorem does not cover disposals at Destruct (they are counted, C05), the client must have no reader inside",
                        "m_nCurEpoch (uint64_t) is an unbounded integer in the model",
-                       "client contract as in C04"] + C04_gpt.ASSUMPTIONS)
+                       "client contract as in C04"] + C04_gpt.ASSUMPTIONS + C04_shb.ASSUMPTIONS)
